@@ -84,4 +84,5 @@ pub fn run(ctx: &'static Ctx) {
         let (s, path) = &cases[i as usize]; check_path(ctx, &sp, "lines", i, *s, path);
     });
     ctx.guard_check("both derivation kinds compared", ctx.classes_matching(|c| c.contains("last=hardened") && c.ends_with(":key")) > 0 && ctx.classes_matching(|c| c.contains("last=normal") && c.ends_with(":key")) > 0, "hardened and normal children were both derived and compared");
+    crate::hist::histories(ctx, P, "derivation-histories", "hdk::derive, a sequence on one fresh thread", crate::hist::c03_ops(ctx.seed));
 }
